@@ -54,8 +54,31 @@ def one_motor(ctx, idx, tier):
     if rng.random() < 0.08 and ms['i0'] is not None:
         ms['i0'] = GEN.Q('Current', 0, ms['imax']['u'])        # documented as allowed
     case = {'kind': 'motor', 'index': idx}
+    derate = None
     try:
-        m = make_motor(ms)
+        if rng.random() < 0.12:
+            # a user subclass that overrides public constants (a derated motor): the law is stated in the motor's PUBLIC
+            # constants, so torque and current must both follow the overridden values
+            import gearpy.units as U_
+            from gearpy.mechanical_objects import DCMotor as _DC
+            derate = {'Tmax': rng.choice([0.5, 0.8]), 'w0': rng.choice([1.0, 0.9])}
+
+            class DeratedMotor(_DC):
+                @property
+                def maximum_torque(self):
+                    return super().maximum_torque * derate['Tmax']
+
+                @property
+                def no_load_speed(self):
+                    return super().no_load_speed * derate['w0']
+            kw_ = {}
+            if ms['i0'] is not None:
+                kw_ = dict(no_load_electric_current=U_.Current(ms['i0']['v'], ms['i0']['u']), maximum_electric_current=U_.Current(ms['imax']['v'], ms['imax']['u']))
+            m = DeratedMotor(name='motor', inertia_moment=U_.InertiaMoment(ms['J']['v'], ms['J']['u']), no_load_speed=U_.AngularSpeed(ms['w0']['v'], ms['w0']['u']),
+                             maximum_torque=U_.Torque(ms['Tmax']['v'], ms['Tmax']['u']), **kw_)
+            ctx.count('motors_of_a_user_subclass_overriding_constants')
+        else:
+            m = make_motor(ms)
     except Exception as ex:
         ctx.violation('C08:valid-motor-rejected', {'motor': ms, 'exception': type(ex).__name__ + ': ' + str(ex)[:150]}, case)
         return
@@ -71,6 +94,9 @@ def one_motor(ctx, idx, tier):
                 ctx.count('constants_converted_in_place_after_construction')
     q = GEN.qsi
     Tmax, w0 = q(ms['Tmax']), q(ms['w0'])
+    if derate:
+        Tmax, w0 = Tmax * derate['Tmax'], w0 * derate['w0']
+        ms = dict(ms, derated_subclass=derate)
     cur = ms['i0'] is not None
     i0, imax = (q(ms['i0']), q(ms['imax'])) if cur else (None, None)
     wu = rng.choice(SI.units('AngularSpeed'))
